@@ -19,15 +19,6 @@ type tagMacroNode struct {
 
 func (node *tagMacroNode) Execute(ctx *ExecutionContext, writer TemplateWriter) *Error {
 	ctx.Private[node.name] = func(args ...*Value) (*Value, error) {
-		ctx.macroDepth++
-		defer func() {
-			ctx.macroDepth--
-		}()
-
-		if ctx.macroDepth > maxMacroDepth {
-			return nil, ctx.Error(fmt.Sprintf("maximum recursive macro call depth reached (max is %v)", maxMacroDepth), node.position)
-		}
-
 		return node.call(ctx, args...)
 	}
 
@@ -35,6 +26,17 @@ func (node *tagMacroNode) Execute(ctx *ExecutionContext, writer TemplateWriter) 
 }
 
 func (node *tagMacroNode) call(ctx *ExecutionContext, args ...*Value) (*Value, error) {
+	// Recursion guard. It lives here (not in the closure above) so that macros
+	// reached through {% import %} are covered as well.
+	ctx.macroDepth++
+	defer func() {
+		ctx.macroDepth--
+	}()
+
+	if ctx.macroDepth > maxMacroDepth {
+		return nil, ctx.Error(fmt.Sprintf("maximum recursive macro call depth reached (max is %v)", maxMacroDepth), node.position)
+	}
+
 	verifEv("MacroIn", ctx.macroDepth, len(args), len(node.argsOrder), 0, node.name, "", ctx)
 	defer verifEv("MacroOut", 0, 0, 0, 0, node.name, "", ctx)
 	argsCtx := make(Context)
